@@ -1532,6 +1532,9 @@ def _read_character(ctx: ReaderContext) -> str:
         char = reader.next_char()
         is_first_char = False
 
+    if not s:
+        raise ctx.eof_error("Unexpected EOF in character literal")
+
     character = "".join(s)
     special = _SPECIAL_CHARS.get(character, None)
     if special is not None:
